@@ -194,9 +194,22 @@ PROPS = {
         "assumptions": COMMON_ASSUMPTIONS + ["user functions act elementwise on arrays", "jax.random.choice returns a label of positive probability (assumed PRNG contract)"],
     },
     "C13": {
-        "contracts": ["C13.panel", "C13.targets", "lcm.dispatchers.vmap_1d"],
+        "contracts": ["C13.panel", "C13.targets", "C03.law-of-motion", "lcm.dispatchers.vmap_1d"],
         "families": {"quick": "Skel-quick (n_periods 2..3), any number of agents; additional targets: every auxiliary function, utility, constraints and deterministic transitions of each skeleton", "thorough": "Skel-thorough"},
         "not_decided": ["n_periods beyond the skeletons' horizons (the panel assembly is unrolled per skeleton)"],
         "assumptions": COMMON_ASSUMPTIONS + ["pandas.DataFrame / MultiIndex.from_product contracts (assumed)"],
+    },
+    "C04": {
+        "contracts": ["C04.key-discipline", "C03.law-of-motion", "lcm.input_processing.process_model.process_model"],
+        "families": {"quick": "skeletons with stochastic states (two stochastic states with permuted dependency orders incl. _period; one stochastic state + two continuous choices), every period, any number of agents", "thorough": "same + permuted declaration orders"},
+        "not_decided": ["frequencies match the transition rows, independence across agents/periods/variables, zero-probability labels never drawn: statistical consequences of the PRNG contract, which is assumed"],
+        "assumptions": COMMON_ASSUMPTIONS + ["PRNG contract: keys form a derivation tree; draws from distinct keys are independent; choice(key, a, p) returns a[j] with probability p[j]"],
+        "level_text": "Contracts decide the key discipline (no key used twice, one key per agent, variable and period), the routing of labels and probability rows, and seed-independence of period 0, for all numbers of agents. The distributional claims rest on the assumed PRNG contract and are not decided.",
+    },
+    "C06": {
+        "contracts": ["C06.solve-and-simulate-path", "C02.decisions", "C01.period-step", "lcm.solve_brute.solve", "lcm.model_functions.get_utility_and_feasibility_function"],
+        "families": {"quick": "Skel-quick", "thorough": "Skel-thorough"},
+        "not_decided": ["the equality 'reported value = solved value at on-grid states' is the composition of C02.decisions (value = max of the period objective over the feasible grid choices, with V_{t+1} = element t+1 of the list) and C01.period-step (V_t[s] = the same max): both are proved against the same per-period objective function; the composition itself is argued, not a separate VC"],
+        "assumptions": COMMON_ASSUMPTIONS,
     },
 }
